@@ -15,8 +15,8 @@ EXPLANATION = ("D1 tables exist for every zone and orientation, vectors have 12 
                "MetInfo.zc equals its key; D2 ClimateZone Display/TryFrom and Orientation names agree with each other and with climate's lists; "
                "D3 nday_from_md accepts every calendar date and returns cumulative MONTH_DAYS + day; D4 I_dir = max(0, .), the two I_dif_tot copies agree, "
                "I_dif_grnd has the form from which 'downward surface receives albedo x global horizontal' follows, clearness thresholds increase")
-DECIDED = ["D1 embedded tables complete and non-negative", "D2 zone and orientation names agree", "D3 day numbers (domain and formula)", "D4 four structural radiation facts"]
-UNDECIDED = ["sun position vs spherical astronomy", "incidence-angle convention", "horizontal-surface conservation", "tables = model(zonaD3.met) to table precision"]
+DECIDED = ["D1 embedded tables complete and non-negative", "D2 zone and orientation names agree", "D3 day numbers (domain and formula)", "D4 structural radiation facts, incidence angle formula (eq. 17) and its wiring", "D5 sun altitude and azimuth formulas agree with spherical astronomy (normalised comparison, 6 quadrant sign cases)"]
+UNDECIDED = ["floating-point error of the sun position near the zenith/horizon", "horizontal-surface conservation", "tables = model(zonaD3.met) to table precision"]
 ASSUMPTIONS = ["the vec!/HashMap::insert lowering of this toolchain (recognised structurally; a change makes the check exit 2, not pass)"]
 LEVEL_TEXT = ("Partial: the table/name/day-number clauses and four structural identities are decided exhaustively from the program text as compiled (every one of the "
               "~9000 literals is read from MIR and checked; key sets are compared with the enum's variants). The numeric core - solar geometry against spherical "
@@ -182,6 +182,7 @@ def run(ctx):
     check_nday(ctx, prog)
     # ---------------- D4
     check_radiation(ctx, prog)
+    check_sun_position(ctx, prog)
 
 
 def check_keyset(ctx, rule, label, keys, variants, st):
@@ -369,6 +370,109 @@ def norm_of(prog, fn, leafmap, callmap=None):
         raise AnalysisError("%s: expected one return expression" % fn.path)
     nz = Normalizer(leafmap, callmap or {})
     return nz, nz.code(strip(sc._rw(rns[0][1])))
+
+
+class TrigNormalizer(Normalizer):
+    """Normalizer that knows three identities of the degree-based helpers, so that equivalent spellings of one formula compare equal:
+    sind(180 - x) = sind(x), cosd(180 - x) = -cosd(x), cosd(asind(sind(x))) = cosd(x) (x an altitude, within +-90 degrees); and that
+    clamp(x, -1, 1) under an inverse sine/cosine is the identity in exact arithmetic (its argument is a sine or cosine)."""
+
+    def code(self, n):
+        n = strip(n)
+        if n[0] == "call" and short_callee(n[1]) == "clamp" and len(n[2]) == 3:
+            lo, hi = strip(n[2][1]), strip(n[2][2])
+            if lo[0] == "k" and hi[0] == "k" and float(lo[1]) == -1.0 and float(hi[1]) == 1.0:
+                return self.code(n[2][0])
+        return Normalizer.code(self, n)
+
+    def fatom(self, fname, args):
+        from ..exprs import Poly, Rat
+        if fname in ("sind", "cosd") and len(args) == 1:
+            a = args[0]
+            if a.d.is_const() and a.n.t.get((), 0) == 180 * a.d.const_value() and len(a.n.t) > 1:
+                y = Rat(Poly.const(180)) - a
+                inner = self.fatom(fname, [y])
+                return inner if fname == "sind" else -inner
+            if fname == "cosd" and a.d.is_const() and len(a.n.t) == 1:
+                (m, cf), = a.n.t.items()
+                if cf == a.d.const_value() and len(m) == 1 and m[0][1] == 1:
+                    for (f1, a1, id1) in self.fatoms:
+                        if id1 == m[0][0] and f1 == "asind" and len(a1) == 1 and a1[0].d.is_const() and len(a1[0].n.t) == 1:
+                            (m2, cf2), = a1[0].n.t.items()
+                            if cf2 == a1[0].d.const_value() and len(m2) == 1 and m2[0][1] == 1:
+                                for (f2, a2, id2) in self.fatoms:
+                                    if id2 == m2[0][0] and f2 == "sind":
+                                        return self.fatom("cosd", a2)
+        return Normalizer.fatom(self, fname, args)
+
+
+def check_sun_position(ctx, prog, rule="c20.sunpos"):
+    """sun altitude and azimuth against spherical astronomy, as formulas: with declination d, hour angle h, latitude w,
+         sin(alt) = sin d sin w + cos d cos w cos h
+         sin(az)  = cos d sin h / cos(alt),   cos(180 - az) = (cos w sin d - sin w cos d cos h) / cos(alt)      (az from south)
+       and az is recovered from asin(sin az) by quadrant: cos(180-az) < 0 -> asin(.); > 0 and sin >= 0 -> 180 - asin(.); > 0 and sin < 0 -> -(180 + asin(.))"""
+    from ..exprs import Rat, Poly
+    cm = {"sind": "sind", "cosd": "cosd", "asind": "asind", "acosd": "acosd"}
+    # ---- altitude
+    af = prog.find("climate::solar::altitude_sol_from_data")
+    asc = Scope(prog, af)
+    nz = TrigNormalizer({"declination": "d", "hourangle": "h", "latitude": "w"}, cm)
+    asin_calls = [strip(asc._rw(asc.eb.call_node(t, b))) for b, t in af.body.calls() if short_callee(callee_name(t) or "") == "asind"]
+    ctx.require(len(asin_calls) == 1, "altitude_sol_from_data: one asind(..) expected")
+    got = nz.code(asin_calls[0][2][0])
+    want = nz.ref("sind(d)*sind(w) + cosd(d)*cosd(w)*cosd(h)")
+    if got.equals(want) and not nz.unknown:
+        ctx.ok(rule, rule + "|altitude", "sin(altitude) = sin d sin w + cos d cos w cos h", af.loc())
+    else:
+        ctx.violation(rule, rule + "|altitude", "the sun's altitude is the inverse sine of %s; spherical astronomy gives sin d sin w + cos d cos w cos h" % str(got)[:200], af.loc())
+    rets = [strip(asc._rw(n_)) for _, n_ in returned_nodes(af.body)]
+    other = [r for r in rets if not (r == asin_calls[0] or (r[0] == "k" and float(r[1]) == 0.0) or show(r) == show(asin_calls[0]))]
+    if other:
+        ctx.violation(rule, rule + "|altitude|returns", "altitude_sol_from_data also returns %s" % show(other[0])[:80], af.loc())
+    # ---- azimuth
+    zf = prog.find("climate::solar::azimuth_sol_from_data")
+    zsc = Scope(prog, zf)
+    nz = TrigNormalizer({"declination": "d", "hourangle": "h", "latitude": "w", "altsol": "a"}, cm)
+    ref_sin = nz.ref("cosd(d)*sind(h)/cosd(a)")
+    ref_cos = nz.ref("(cosd(w)*sind(d) - sind(w)*cosd(d)*cosd(h))/cosd(a)")
+    ref_aux = nz.ref("asind(cosd(d)*sind(h)/cosd(a))")
+    expected = {("neg", 1): [ref_aux], ("neg", -1): [ref_aux], ("neg", 0): [ref_aux],
+                ("pos", 1): [Rat(Poly.const(180)) - ref_aux], ("pos", -1): [Rat(Poly.const(0)) - (Rat(Poly.const(180)) + ref_aux)],
+                ("pos", 0): [Rat(Poly.const(180)) - ref_aux, Rat(Poly.const(0)) - (Rat(Poly.const(180)) + ref_aux)]}
+    import operator
+    OPS = {"Lt": operator.lt, "Le": operator.le, "Gt": operator.gt, "Ge": operator.ge, "Eq": operator.eq, "Ne": operator.ne}
+    bad = []
+    seen_quantities = set()
+    for (cs, ss), wants in sorted(expected.items()):
+        cval = {"neg": -1, "pos": 1}[cs]
+
+        def atom_value(n_):
+            n_ = strip(n_)
+            if n_[0] == "bin" and n_[1] in OPS and strip(n_[3])[0] == "k":
+                x = nz.code(strip(n_[2]))
+                k_ = float(strip(n_[3])[1])
+                if x.equals(ref_sin):
+                    seen_quantities.add("sin")
+                    return "1" if OPS[n_[1]](ss, k_) else "0"
+                if x.equals(ref_cos):
+                    seen_quantities.add("cos")
+                    return "1" if OPS[n_[1]](cval, k_) else "0"
+            return None
+        r = TB.eval_return(zsc, atom_value)
+        if isinstance(r, tuple) and r and r[0] == "stuck":
+            raise AnalysisError("azimuth_sol_from_data: a branch tests %s, which is neither sin(az) = cos d sin h / cos(alt) nor cos(180 - az) = (cos w sin d - sin w cos d cos h) / cos(alt)" % r[1])
+        gotz = nz.code(r)
+        if nz.unknown:
+            raise AnalysisError("azimuth_sol_from_data: unknown quantity %s" % nz.unknown[:2])
+        if not any(gotz.equals(w_) for w_ in wants):
+            bad.append((cs, ss, gotz, wants[0]))
+    if bad:
+        cs, ss, gotz, w_ = bad[0]
+        ctx.violation(rule, rule + "|azimuth", "for a sun with cos(180 - az) %s 0 and sin(az) %s 0 the azimuth returned is %s; spherical astronomy gives %s (az measured from south; "
+                      "asind#.. is the inverse sine of cos d sin h / cos(alt)) - %d of 6 sign cases differ"
+                      % ("<" if cs == "neg" else ">", {1: ">", 0: "=", -1: "<"}[ss], str(gotz)[:160], str(w_)[:120], len(bad)), zf.loc())
+    else:
+        ctx.ok(rule, rule + "|azimuth", "azimuth = quadrant-corrected inverse sine of cos d sin h / cos(alt) in all 6 sign cases of (cos(180-az), sin(az))", zf.loc())
 
 
 def check_radiation(ctx, prog, rule="c20.rad"):
